@@ -92,7 +92,9 @@ _results = {}
 def run_mode(mode, repo, out):
     """the result is a function of the tree under check and of the harness sources: it is computed once per content
     hash (in-process and, for the 30 s system mode, on disk under <out>/modecache), and marked cached when reused"""
-    key = (mode, tree_hash(repo))
+    # the random part of the system mode is a function of VERIF_SEED, its size of VERIF_DEEP
+    key = (mode, tree_hash(repo) + "-s" + "".join(c for c in os.environ.get("VERIF_SEED", "0") if c.isalnum())[:20]
+           + ("-deep" if os.environ.get("VERIF_DEEP") else ""))
     if key in _results:
         return dict(_results[key], cached=True)
     cpath = os.path.join(out, "modecache", f"{mode}-{key[1]}.json")
